@@ -9,7 +9,7 @@ use qrlew::{ast, data_type::DataTyped as _, namer, relation::{Relation, Variant 
 use serde_json::{json, Value as J};
 use std::hash::{Hash, Hasher};
 
-const EXTRA: [(&str, bool); 18] = [
+const EXTRA: [(&str, bool); 21] = [
     ("SELECT random() AS r, a AS a FROM t1", false),
     ("SELECT a AS a FROM t1 WHERE random() < 0.5", false),
     ("SELECT a + 1, b * 2, a + 1 FROM t1", false),
@@ -29,6 +29,10 @@ const EXTRA: [(&str, bool); 18] = [
     ("SELECT a + b FROM t1 WHERE a + b > 0 ORDER BY a + b", false),
     ("SELECT count(*), count(*) FROM t1 HAVING count(*) > 0", false),
     ("SELECT d, max(c) - min(c) FROM t1 GROUP BY d HAVING max(c) - min(c) >= 0", false),
+    // the same multi-stage sub-query on both sides of a join / set operation (several shared CTEs to order in the WITH clause)
+    ("WITH t AS (SELECT d AS d, sum(2 * a) AS s, count(*) AS n FROM t1 WHERE b > 0 GROUP BY d) SELECT x.d AS d, x.s AS s, y.n AS n FROM t AS x JOIN t AS y ON x.d = y.d", false),
+    ("WITH t AS (SELECT b AS b, max(c) AS m FROM t1 GROUP BY b) SELECT x.b AS b, x.m AS m FROM t AS x JOIN t AS y ON x.b = y.b JOIN t AS z ON y.b = z.b", false),
+    ("WITH t AS (SELECT DISTINCT a AS a FROM t1 WHERE b > 0) SELECT a AS a FROM t UNION SELECT a AS a FROM t", false),
 ];
 
 pub fn gen(rng: &mut Rng, k: usize, _tier: &str) -> J {
@@ -47,7 +51,7 @@ fn rows_key(rows: &[Vec<Cell>], ordered: bool) -> Vec<String> { let mut v: Vec<S
 
 /// the two relations have the same column names and sizes, and column types that are equal as sets (`DataType ==` is mutual inclusion)
 /// while their text differs: the signature of the `DataType` Hash / Eq mismatch
-fn same_modulo_type_structure(a: &Relation, b: &Relation) -> bool {
+pub fn same_modulo_type_structure(a: &Relation, b: &Relation) -> bool {
     use qrlew::data_type::DataType;
     // integer types as explicit value sets (the library's own `==` distinguishes `int[0 2]` from `int{0, 1, 2}`)
     fn ints(t: &DataType) -> Option<std::collections::BTreeSet<i64>> {
